@@ -507,6 +507,82 @@ def check_laws(run):
                      "C13_continuous_at_contact")
 
 
+def expression_law_cases(run):
+    """parameter sets in which one parameter follows another through a
+    constraint expression, handed to model() / residual() right after an
+    independent value was changed (nobody read the dependent value in
+    between): the laws hold for the values the parameter set reports"""
+    from nanite import model
+    for mk in sorted(model.models_available):
+        md = model.models_available[mk]
+        names = list(md.get_parameter_defaults().keys())
+        if "contact_point" not in names or "baseline" not in names:
+            continue
+        mfile = getattr(getattr(md, "module", None), "__file__", "") or ""
+        if not (mfile.startswith(str(common.REPO)) or mk.startswith("nv_")):
+            continue                   # external compiled model
+        enames = [k_ for k_ in names if k_.startswith("E")
+                  and k_ in md.parameter_keys]
+        if not enames:
+            continue
+        ind = enames[0]
+        ties = [(e_, f"{ind}*{0.01 * (j + 1)}")
+                for j, e_ in enumerate(enames[1:])]
+        if not ties:
+            ties = [("baseline", f"{ind}*1e-14 + 2e-11")]
+        for orient in (1, -1):
+            x = np.linspace(1e-6, -1.5e-6, 11)[::orient].copy()
+            y = np.linspace(0, 3e-9, 11)
+            cfg = {"expression-laws": mk, "ties": ties, "orientation": orient}
+            key = f"expr-law:{mk}:{orient}"
+            run.case(cfg, kind="expression-laws")
+            try:
+                with warnings.catch_warnings():
+                    warnings.simplefilter("ignore")
+                    p = md.get_parameter_defaults()
+                    p["contact_point"].set(value=1e-7)
+                    for dep, ex in ties:
+                        p[dep].set(expr=ex)
+                    p[ind].set(value=1234.5)
+                    F1 = np.array(md.model(p, x), copy=True)
+                    vals1 = {n_: float(p[n_].value) for n_ in names}
+                    lam = 3.0
+                    p[ind].set(value=1234.5 * lam)
+                    F2 = np.array(md.model(p, x), copy=True)
+                    r2 = np.array(md.residual(p, x, y, weight_cp=5e-7),
+                                  copy=True)
+                    vals = {n_: float(p[n_].value) for n_ in names}
+                    bl1, bl2 = vals1["baseline"], vals["baseline"]
+                    asc = x[0] < x[-1]
+                    inner = md.module.model_func(
+                        (x[::-1] if asc else x).copy(), **vals1)
+                    G1 = inner[::-1] if asc else inner
+                    w = np.clip(np.abs(x - vals["contact_point"]) / 5e-7,
+                                None, 1)
+                why = None
+                fmax = max(float(np.max(np.abs(F1 - bl1))), 1e-30)
+                if F1.tobytes() != np.asarray(G1).tobytes():
+                    why = ("model() differs from the model function at the "
+                           "values the parameter set reports (max "
+                           f"{float(np.max(np.abs(F1 - G1))):.3g})")
+                elif np.max(np.abs((F2 - bl2) - lam * (F1 - bl1))) > \
+                        1e-9 * lam * fmax:
+                    why = ("force minus baseline is not linear when the "
+                           f"independent modulus is scaled by {lam} and the "
+                           "others follow by expression")
+                elif np.max(np.abs(r2 - (y - F2) * w)) > 1e-12 * (
+                        float(np.max(np.abs(y - F2))) + 1e-30):
+                    why = ("default residual is not (data - model) * "
+                           "weights")
+            except BaseException as e:
+                why = f"raised {type(e).__name__}: {e}"
+            if why:
+                run.failing(SITE_M, key, f"{cfg}: {why}",
+                            payload={"kind": "rerun"},
+                            theorem="C13_modulus_linear / "
+                            "C13_default_residual")
+
+
 def check(run):
     run.sources = common.source_digests(
         ["src/nanite/model/residuals.py", "src/nanite/model/core.py"])
@@ -537,6 +613,7 @@ def check(run):
     reuse_buffer_cases(run)
     signature_order_cases(run)
     check_laws(run)
+    expression_law_cases(run)
     run.rule = ("harness-registered order-sensitive / asserting / ancillary /"
                 " expression models on abscissae of both orientations, sizes "
                 "1-13, constant and unsorted; structural laws on every "
